@@ -214,11 +214,11 @@ theorem mono_intToStr (hs : ths.length = 1) : Covers (rule .intToStr p args ths)
 theorem mono_bvToNatural (hs : ths.length = 1) : Covers (rule .bvToNatural p args ths) x := by
   simp only [rule, headD_single hs hx, Theory.copy_eq]; exact with_int_covers x
 theorem mono_strLength : Covers (rule .strLength p args ths) x := by
-  simp only [rule]; exact (with_int_covers _).trans (combineList_covers hx)
+  simp only [rule]; exact (combine_covers_left _ _).trans (combineList_covers hx)
 theorem mono_strIndexOf : Covers (rule .strIndexOf p args ths) x := by
-  simp only [rule]; exact (with_int_covers _).trans (combineList_covers hx)
+  simp only [rule]; exact (combine_covers_left _ _).trans (combineList_covers hx)
 theorem mono_strToInt : Covers (rule .strToInt p args ths) x := by
-  simp only [rule]; exact (with_int_covers _).trans (combineList_covers hx)
+  simp only [rule]; exact (combine_covers_left _ _).trans (combineList_covers hx)
 theorem mono_times : Covers (rule .times p args ths) x := by
   simp only [rule]
   refine (set_dl_covers _ _).trans ?_
@@ -235,6 +235,8 @@ theorem mono_arrayValue : Covers (rule .arrayValue p args ths) x := by
   · exact combineList_covers hx
 theorem mono_div : Covers (rule .div p args ths) x := by
   simp only [rule]
+  refine (set_dl_covers _ _).trans ?_
+  simp only [divCore]
   split
   · split
     · exact (set_linear_false_covers _).trans (foldCombine_covers hx)
@@ -320,11 +322,14 @@ theorem own_intToStr : Covers (rule .intToStr p args (args.map f)) (intrinsic .i
   constructor <;> simp [rule, intrinsic, Features.join, Features.none, isIntValuedOp, Theory.set_strings, Theory.copy]
 
 theorem own_strLength : Covers (rule .strLength p args (args.map f)) (intrinsic .strLength p args) := by
-  constructor <;> simp [rule, intrinsic, Features.join, Features.none, isIntValuedOp, withInt]
+  refine (combine_covers_right _ _).trans ?_
+  constructor <;> simp [intrinsic, Features.join, Features.none, isIntValuedOp, intTheory, Theory.default]
 theorem own_strIndexOf : Covers (rule .strIndexOf p args (args.map f)) (intrinsic .strIndexOf p args) := by
-  constructor <;> simp [rule, intrinsic, Features.join, Features.none, isIntValuedOp, withInt]
+  refine (combine_covers_right _ _).trans ?_
+  constructor <;> simp [intrinsic, Features.join, Features.none, isIntValuedOp, intTheory, Theory.default]
 theorem own_strToInt : Covers (rule .strToInt p args (args.map f)) (intrinsic .strToInt p args) := by
-  constructor <;> simp [rule, intrinsic, Features.join, Features.none, isIntValuedOp, withInt]
+  refine (combine_covers_right _ _).trans ?_
+  constructor <;> simp [intrinsic, Features.join, Features.none, isIntValuedOp, intTheory, Theory.default]
 theorem own_bvToNatural : Covers (rule .bvToNatural p args (args.map f)) (intrinsic .bvToNatural p args) := by
   constructor <;> simp [rule, intrinsic, Features.join, Features.none, isIntValuedOp, withInt]
 
@@ -373,7 +378,7 @@ theorem own_div : Covers (rule .div p args (args.map f)) (intrinsic .div p args)
   match args, h with
   | [a, d], h =>
     have hd : hasFreeVars d = true := by simpa [hasFreeVars_eq_nonConstant] using h
-    simp [rule, hd, Theory.set_linear, Theory.copy]
+    simp [rule, divCore, set_dl_linear, hd, Theory.set_linear, Theory.copy]
   | [], h => simp at h
   | [_], h => simp at h
   | _ :: _ :: _ :: _, h => simp at h
@@ -519,12 +524,14 @@ theorem rule_wf (op : Op) (p : Payload) (args : List Term) (ths : List Theory)
     · exact funBase_wf h
   case toReal => simp only [rule]; exact Theory.set_lira_wf _ true (headD_wf h) (.inl rfl)
   case intToStr => simp only [rule]; exact Theory.set_strings_wf _ true (headD_wf h)
-  case pow => simp only [rule]; exact Theory.set_linear_wf _ false (headD_wf h)
+  case pow =>
+    simp only [rule]
+    exact Theory.set_difference_logic_wf _ false (Theory.set_linear_wf _ false (headD_wf h))
   case bvToNatural =>
     simp only [rule, Theory.copy_eq]; exact (with_flag_wf_aux _ (headD_wf h)).1
-  case strLength => simp only [rule]; exact (with_flag_wf_aux _ (combineList_wf h)).1
-  case strIndexOf => simp only [rule]; exact (with_flag_wf_aux _ (combineList_wf h)).1
-  case strToInt => simp only [rule]; exact (with_flag_wf_aux _ (combineList_wf h)).1
+  case strLength => simp only [rule]; exact Theory.combine_wf _ _ (combineList_wf h) (by decide)
+  case strIndexOf => simp only [rule]; exact Theory.combine_wf _ _ (combineList_wf h) (by decide)
+  case strToInt => simp only [rule]; exact Theory.combine_wf _ _ (combineList_wf h) (by decide)
   case times =>
     simp only [rule]
     apply Theory.set_difference_logic_wf
@@ -540,6 +547,8 @@ theorem rule_wf (op : Op) (p : Payload) (args : List Term) (ths : List Theory)
     · exact combineList_wf h
   case div =>
     simp only [rule]
+    apply Theory.set_difference_logic_wf
+    simp only [divCore]
     split
     · rename_i a d ta td
       split
